@@ -190,3 +190,47 @@ func VerifC14BuilderChoice() {
 		v.Assert(found, "C14: an argument with several candidate builders is not converted as a choice among them")
 	}
 }
+
+// VerifC03Compose (C03): the `compose` builder rule groups the builders of composable plugins (panel options,
+// field config) by plugin type in a Go map and emits one composed builder per type. With two plugin types
+// the list of builders it returns (what `cog inspect` shows, and the order later rules and jennies see)
+// must not depend on map iteration order.
+func VerifC03Compose() {
+	dash := ast.NewSchema("dash", ast.SchemaMeta{})
+	dash.AddObject(ast.NewObject("dash", "Panel", ast.NewStruct(
+		ast.NewStructField("type", ast.String(), ast.Required()),
+		ast.NewStructField("title", ast.String()),
+		ast.NewStructField("options", ast.Any()),
+	)))
+	plugin := func(pkg, id string) *ast.Schema {
+		s := ast.NewSchema(pkg, ast.SchemaMeta{Kind: ast.SchemaKindComposable, Variant: ast.SchemaVariantPanel, Identifier: id})
+		s.AddObject(ast.NewObject(pkg, "Options", ast.NewStruct(ast.NewStructField("unit", ast.String()))))
+		return s
+	}
+	schemas := ast.Schemas{dash, plugin("gauge", "gauge"), plugin("stat", "stat")}
+	if v.Bool("thirdplugin") {
+		schemas = append(schemas, plugin("text", "text"))
+	}
+	rule := builder.ComposeBuilders(builder.ByVariant(ast.SchemaVariantPanel), builder.CompositionConfig{
+		SourceBuilderName:        "dash.Panel",
+		PluginDiscriminatorField: "type",
+		CompositionMap:           map[string]string{"Options": "options"},
+		ComposedBuilderName:      "Panel",
+	})
+	run := func() ([]ast.Builder, error) {
+		builders := (&ast.BuilderGenerator{}).FromAST(schemas)
+		rw := rewrite.NewRewrite([]rewrite.LanguageRules{{Language: rewrite.AllLanguages, BuilderRules: []builder.RewriteRule{rule}}}, rewrite.Config{})
+		return rw.ApplyTo(schemas, builders, "go")
+	}
+	v.SymOrder(true)
+	out1, err1 := run()
+	out2, err2 := run()
+	v.SymOrder(false)
+	v.Assert((err1 == nil) == (err2 == nil), "C03: whether the compose rule fails depends on map iteration order")
+	if err1 != nil || err2 != nil {
+		v.Reach("compose returned an error")
+		return
+	}
+	v.Assert(len(out1) >= 3, "C03 (setup): the compose rule did not produce one composed builder per plugin")
+	v.Assert(v.DeepEqualNilEmpty(out1, out2), "C03: the builders the compose rule returns depend on map iteration order")
+}
